@@ -1,57 +1,125 @@
-(* C24 proofs: conservation of candidates and of the end-of-candidates token
-   over arbitrary schedules, any number of flushes, any candidate list. *)
+(* C24 proofs, part 1: conservation of (tagged) candidates and of the
+   end-of-candidates tokens over arbitrary schedules with ICE restarts, any
+   number of flushes, any candidate lists (code after the flushing repair). *)
 From Coq Require Import List Arith Bool Lia.
 Import ListNotations.
 From Verif Require Import Model.Gather.
 
-Definition cnt (x : cand) (l : list cand) : nat := count_occ Nat.eq_dec l x.
+Lemma Some_inj : forall A (x y : A), Some x = Some y -> x = y.
+Proof. intros A x y H. injection H as H. exact H. Qed.
 
+Definition tcand_eq_dec : forall a b : tcand, {a = b} + {a <> b}.
+Proof. decide equality; apply Nat.eq_dec. Defined.
+
+Definition cnt (x : tcand) (l : list tcand) : nat := count_occ tcand_eq_dec l x.
 Arguments cnt : simpl never.
 
 Lemma cnt_app : forall x a b, cnt x (a ++ b) = cnt x a + cnt x b.
 Proof. intros. unfold cnt. apply count_occ_app. Qed.
+Lemma cnt_nil : forall x, cnt x [] = 0.
+Proof. reflexivity. Qed.
+Lemma cnt_cons : forall x a l, cnt x (a :: l) = cnt x [a] + cnt x l.
+Proof. intros. change (a :: l) with ([a] ++ l). apply cnt_app. Qed.
 
-Definition inhand (s : st) : list cand :=
-  match a_ph s with ACandEmit c => [c] | _ => [] end.
-Definition poolc (s : st) : list cand :=
+(* the tagged candidates among a list of deliveries *)
+Definition cands_of (o : list item) : list tcand :=
+  flat_map (fun e => match snd e with Some c => [(fst e, c)] | None => [] end) o.
+(* the end markers of cycle k among them *)
+Definition nils_of (k : nat) (o : list item) : nat :=
+  length (filter (fun e => Nat.eqb (fst e) k && match snd e with None => true | Some _ => false end) o).
+Arguments cands_of : simpl never.
+Arguments nils_of : simpl never.
+
+Lemma cands_of_app : forall a b, cands_of (a ++ b) = cands_of a ++ cands_of b.
+Proof. intros. unfold cands_of. apply flat_map_app. Qed.
+Lemma nils_of_app : forall k a b, nils_of k (a ++ b) = nils_of k a + nils_of k b.
+Proof. intros. unfold nils_of. rewrite filter_app, app_length. reflexivity. Qed.
+Lemma cands_of_nil : cands_of [] = [].
+Proof. reflexivity. Qed.
+Lemma nils_of_nil : forall k, nils_of k [] = 0.
+Proof. reflexivity. Qed.
+Lemma cands_of_cand : forall k c, cands_of [(k, Some c)] = [(k, c)].
+Proof. reflexivity. Qed.
+Lemma cands_of_end : forall k, cands_of [(k, None)] = [].
+Proof. reflexivity. Qed.
+Lemma nils_of_cand : forall k j c, nils_of k [(j, Some c)] = 0.
+Proof. intros. unfold nils_of. cbn. rewrite andb_false_r. reflexivity. Qed.
+Lemma nils_of_end : forall k j, nils_of k [(j, None)] = if Nat.eqb j k then 1 else 0.
+Proof. intros. unfold nils_of. cbn. rewrite andb_true_r. destruct (Nat.eqb j k); reflexivity. Qed.
+Lemma cands_of_cons : forall e l, cands_of (e :: l) = cands_of [e] ++ cands_of l.
+Proof. intros. change (e :: l) with ([e] ++ l). apply cands_of_app. Qed.
+Lemma nils_of_cons : forall k e l, nils_of k (e :: l) = nils_of k [e] + nils_of k l.
+Proof. intros. change (e :: l) with ([e] ++ l). apply nils_of_app. Qed.
+
+(* everything the agent will still deliver: the queue, then the cycles of the restarts to come *)
+Fixpoint future_items (n : nat) (l : list (list cand * bool)) : list item :=
+  match l with
+  | [] => []
+  | c :: r => cycle_items n c ++ future_items (S n) r
+  end.
+Definition pendingq (s : st) : list item := a_queue s ++ future_items (ncyc s) (cycles s).
+
+Definition inhand (s : st) : list tcand :=
+  match a_ph s with ACandEmit k c => [(k, c)] | _ => [] end.
+Definition poolc (s : st) : list tcand :=
   match pool s with Some l => l | None => [] end.
-Definition fcontrib (f : fphase) : list cand :=
+Definition fcontrib (f : fphase) : list tcand :=
   match f with FEmit cs _ => cs | _ => [] end.
-Definition flushc (l : list fphase) : list cand := flat_map fcontrib l.
-Definition ftok (f : fphase) : nat :=
-  match f with FEmit _ true => 1 | _ => 0 end.
-Fixpoint ftoks (l : list fphase) : nat :=
-  match l with [] => 0 | f :: t => ftok f + ftoks t end.
-Definition atok (s : st) : nat := match a_ph s with ADone => 0 | _ => 1 end.
-Definition b2n (b : bool) : nat := if b then 1 else 0.
+Definition flushc (l : list fphase) : list tcand := flat_map fcontrib l.
+Arguments flushc : simpl never.
 
-Lemma emitted_snoc_some : forall o c, emitted (o ++ [Some c]) = emitted o ++ [c].
-Proof. intros. unfold emitted. rewrite flat_map_app. cbn. reflexivity. Qed.
-Lemma emitted_snoc_none : forall o, emitted (o ++ [None]) = emitted o.
-Proof. intros. unfold emitted. rewrite flat_map_app. cbn. apply app_nil_r. Qed.
-Lemma nil_count_snoc_some : forall o c, nil_count (o ++ [Some c]) = nil_count o.
-Proof. intros. unfold nil_count. rewrite filter_app, app_length. cbn. lia. Qed.
-Lemma nil_count_snoc_none : forall o, nil_count (o ++ [None]) = S (nil_count o).
-Proof. intros. unfold nil_count. rewrite filter_app, app_length. cbn. lia. Qed.
+(* end-of-cycle-k tokens outside the queue and the output *)
+Definition atok (k : nat) (s : st) : nat :=
+  match a_ph s with
+  | ANilPool j | ANilEmit j => if Nat.eqb j k then 1 else 0
+  | _ => 0
+  end.
+Definition ptok (k : nat) (s : st) : nat :=
+  match nilp s with Some j => if Nat.eqb j k then 1 else 0 | None => 0 end.
+Definition ftok (k : nat) (f : fphase) : nat :=
+  match f with
+  | FNil j | FEmit _ (Some j) => if Nat.eqb j k then 1 else 0
+  | _ => 0
+  end.
+Fixpoint ftoks (k : nat) (l : list fphase) : nat :=
+  match l with [] => 0 | f :: t => ftok k f + ftoks k t end.
+Definition ntok (k : nat) (s : st) : nat :=
+  nils_of k (pendingq s) + atok k s + ptok k s + ftoks k (fl s) + nils_of k (out s).
 
+(* number of flushes that are reporting candidates *)
+Definition femit (f : fphase) : nat := match f with FEmit _ _ => 1 | _ => 0 end.
+Fixpoint femits (l : list fphase) : nat :=
+  match l with [] => 0 | f :: t => femit f + femits t end.
+
+(* ---------- lists ---------- *)
 Lemma flushc_set_nth : forall x j f f' l,
   nth_error l j = Some f ->
   cnt x (flushc (set_nth j f' l)) + cnt x (fcontrib f) = cnt x (flushc l) + cnt x (fcontrib f').
 Proof.
   intros x j f f' l. revert j. induction l as [|a t IH]; intros j H.
   - destruct j; discriminate.
-  - destruct j; cbn [set_nth nth_error flushc flat_map] in *; fold (flushc t); try fold (flushc (set_nth j f' t)).
-    + injection H as ->. rewrite !cnt_app. lia.
-    + rewrite !cnt_app. specialize (IH j H). lia.
+  - destruct j; cbn [set_nth nth_error] in *; unfold flushc in *; cbn [flat_map]; rewrite !cnt_app.
+    + apply Some_inj in H. subst. lia.
+    + specialize (IH j H). lia.
 Qed.
 
-Lemma ftoks_set_nth : forall j f f' l,
-  nth_error l j = Some f -> ftoks (set_nth j f' l) + ftok f = ftoks l + ftok f'.
+Lemma ftoks_set_nth : forall k j f f' l,
+  nth_error l j = Some f -> ftoks k (set_nth j f' l) + ftok k f = ftoks k l + ftok k f'.
+Proof.
+  intros k j f f' l. revert j. induction l as [|a t IH]; intros j H.
+  - destruct j; discriminate.
+  - destruct j; cbn [set_nth nth_error ftoks] in *.
+    + apply Some_inj in H. subst. lia.
+    + specialize (IH j H). lia.
+Qed.
+
+Lemma femits_set_nth : forall j f f' l,
+  nth_error l j = Some f -> femits (set_nth j f' l) + femit f = femits l + femit f'.
 Proof.
   intros j f f' l. revert j. induction l as [|a t IH]; intros j H.
   - destruct j; discriminate.
-  - destruct j; cbn in *.
-    + injection H as ->. lia.
+  - destruct j; cbn [set_nth nth_error femits] in *.
+    + apply Some_inj in H. subst. lia.
     + specialize (IH j H). lia.
 Qed.
 
@@ -65,6 +133,116 @@ Proof.
       destruct (IH j H) as [->|Hin]; [left; reflexivity|right; right; exact Hin].
 Qed.
 
+Lemma length_set_nth : forall A j (x : A) l, length (set_nth j x l) = length l.
+Proof.
+  intros A j x l. revert j. induction l as [|a t IH]; intros j; [destruct j; reflexivity|].
+  destruct j; cbn; [reflexivity|]. rewrite IH. reflexivity.
+Qed.
+
+Lemma flushc_repeat : forall n, flushc (repeat FStart n) = [].
+Proof. induction n; cbn; auto. Qed.
+Lemma ftoks_repeat : forall k n, ftoks k (repeat FStart n) = 0.
+Proof. induction n; cbn; auto. Qed.
+Lemma femits_repeat : forall n, femits (repeat FStart n) = 0.
+Proof. induction n; cbn; auto. Qed.
+
+(* ---------- runs ---------- *)
+Lemma run_inv : forall fx (P : st -> Prop),
+  (forall s t s', P s -> step fx s t = Some s' -> P s') ->
+  forall sch s, P s -> P (run fx s sch).
+Proof.
+  intros fx P Hstep. induction sch as [|t rest IH]; intros s Hs; [exact Hs|].
+  cbn. destruct (step fx s t) eqn:E; [|apply IH; exact Hs].
+  apply IH. eapply Hstep; eauto.
+Qed.
+
+(* ---------- the counting invariant ---------- *)
+Record inv (all : list tcand) (s : st) : Prop := {
+  c_cons : forall x, cnt x all
+             = cnt x (cands_of (out s)) + cnt x (inhand s) + cnt x (poolc s)
+               + cnt x (flushc (fl s)) + cnt x (cands_of (pendingq s));
+  c_emit : femits (fl s) = flushing s;
+  c_nofx : forall cs k, ~ In (FEmit cs (Some k)) (fl s);
+  c_nilp : nilp s <> None -> pool_active s = true \/ 0 < flushing s;
+  c_pool : pool_active s = false -> poolc s = [];
+  c_fl : (forall f, In f (fl s) -> f = FStart) \/ pool s = None
+}.
+
+Definition all_cands (first : list cand * bool) (more : list (list cand * bool)) : list tcand :=
+  cands_of (cycle_items 0 first ++ future_items 1 more).
+
+Lemma inv_init : forall p first more n, inv (all_cands first more) (init p first more n).
+Proof.
+  intros p first more n. constructor; cbn.
+  - intros x. rewrite flushc_repeat. unfold poolc, pendingq, all_cands. cbn.
+    destruct p; cbn; rewrite ?cnt_nil; lia.
+  - apply femits_repeat.
+  - intros cs k H. apply repeat_spec in H. discriminate.
+  - intros H. congruence.
+  - unfold pool_active, poolc. cbn. destruct p; cbn; auto.
+  - left. intros f Hf. apply repeat_spec in Hf. exact Hf.
+Qed.
+
+Ltac clia := rewrite ?cands_of_app, ?cands_of_cand, ?cands_of_end, ?cands_of_nil, ?cnt_app, ?cnt_nil in *; lia.
+
+Lemma pool_active_frame : forall s s', pool s' = pool s -> psize s' = psize s ->
+  pool_active s' = pool_active s.
+Proof. intros s s' H1 H2. unfold pool_active. rewrite H1, H2. reflexivity. Qed.
+
+Lemma pool_active_upd : forall s g np f o q a l,
+  pool_active (upd s g (pool s) (psize s) np f o q a l) = pool_active s.
+Proof. reflexivity. Qed.
+Arguments pool_active : simpl never.
+
+Ltac fields :=
+  unfold inhand, poolc, pendingq;
+  cbn [out a_ph pool psize nilp flushing fl a_queue ncyc cycles gstate upd];
+  rewrite ?pool_active_upd.
+
+Lemma inv_agent : forall all s s', inv all s -> agent_step true s = Some s' -> inv all s'.
+Proof.
+  intros all s s' I H. unfold agent_step in H.
+  pose proof (c_cons _ _ I) as Hcons. pose proof (c_emit _ _ I) as Hem.
+  pose proof (c_nofx _ _ I) as Hnf. pose proof (c_nilp _ _ I) as Hnp.
+  pose proof (c_pool _ _ I) as Hpl. pose proof (c_fl _ _ I) as Hfl.
+  unfold inhand, poolc, pendingq in *.
+  destruct (a_ph s) eqn:Hph.
+  - (* AEnter *)
+    destruct (a_queue s) as [|[k [c|]] r] eqn:Hq; [discriminate| |].
+    + destruct (pool_active s) eqn:Hact.
+      * apply Some_inj in H. subst s'.
+        assert (exists l, pool s = Some l /\ Nat.ltb 0 (psize s) = true) as (l & Hp & Hps).
+        { unfold pool_active in Hact. destruct (pool s) as [l|]; [|discriminate]. eauto. }
+        rewrite Hp in *.
+        constructor; fields; auto; try solve [intros Hx; specialize (Hnp Hx); intuition congruence].
+        -- intros x. specialize (Hcons x). cbn [app] in Hcons.
+           rewrite cands_of_cons, cands_of_cand in Hcons. clia.
+        -- unfold pool_active. cbn [pool psize upd]. rewrite Hps. discriminate.
+        -- destruct Hfl as [Hl|Hn]; [left; exact Hl|discriminate].
+      * apply Some_inj in H. subst s'.
+        constructor; fields; auto; try solve [intros Hx; specialize (Hnp Hx); intuition congruence].
+        all: intros x; specialize (Hcons x); cbn [app] in Hcons;
+          rewrite cands_of_cons, cands_of_cand in Hcons; clia.
+    + apply Some_inj in H. subst s'.
+      constructor; fields; auto; try solve [intros Hx; specialize (Hnp Hx); intuition congruence].
+      all: intros x; specialize (Hcons x); cbn [app] in Hcons;
+        rewrite cands_of_cons, cands_of_end in Hcons; clia.
+  - (* ACandEmit *)
+    apply Some_inj in H. subst s'.
+    constructor; fields; auto; try solve [intros Hx; specialize (Hnp Hx); intuition congruence].
+    all: intros x; specialize (Hcons x); clia.
+  - (* ANilPool *)
+    destruct (pool_active s || (true && Nat.ltb 0 (flushing s))) eqn:Hact;
+      apply Some_inj in H; subst s'; constructor; fields; auto;
+      try solve [intros x; specialize (Hcons x); clia].
+    intros _. apply orb_prop in Hact. destruct Hact as [Ha|Ha]; [left; exact Ha|right].
+    rewrite andb_true_l in Ha. apply Nat.ltb_lt in Ha. exact Ha.
+  - (* ANilEmit *)
+    apply Some_inj in H. subst s'.
+    constructor; fields; auto; try solve [intros Hx; specialize (Hnp Hx); intuition congruence].
+    all: intros x; specialize (Hcons x); clia.
+Qed.
+
 Lemma nth_set_nth_same : forall A j (x y : A) l,
   nth_error l j = Some y -> nth_error (set_nth j x l) j = Some x.
 Proof.
@@ -73,367 +251,232 @@ Proof.
   - destruct j; cbn in *; [reflexivity|]. eapply IH. exact H.
 Qed.
 
-Lemma fcontrib_fnext : forall cs b, fcontrib (fnext cs b) = cs.
-Proof. intros [|c r] b; cbn; [destruct b|]; reflexivity. Qed.
-Lemma ftok_fnext_nil : forall b, ftok (fnext [] b) = b2n b.
-Proof. intros [|]; reflexivity. Qed.
-Lemma ftok_fnext : forall cs b, ftok (fnext cs b) = b2n b.
-Proof. intros [|c r] b; cbn; destruct b; reflexivity. Qed.
-
-Record inv (cands : list cand) (s : st) : Prop := {
-  c_cons : forall x, cnt x cands
-             = cnt x (emitted (out s)) + cnt x (inhand s) + cnt x (poolc s)
-               + cnt x (flushc (fl s)) + cnt x (a_rest s);
-  c_tok : atok s + b2n (nilp s) + ftoks (fl s) + nil_count (out s) = 1;
-  c_nilp : nilp s = true -> pool_active s = true;
-  c_rest : match a_ph s with ANilPool | ANilEmit | ADone => a_rest s = [] | _ => True end;
-  c_fl : (forall f, In f (fl s) -> f = FStart) \/ pool s = None
-}.
-
-Lemma flushc_repeat : forall n, flushc (repeat FStart n) = [].
-Proof. induction n; cbn; auto. Qed.
-Arguments emitted : simpl never.
-Arguments flushc : simpl never.
-Arguments nil_count : simpl never.
-Lemma ftoks_repeat : forall n, ftoks (repeat FStart n) = 0.
-Proof. induction n; cbn; auto. Qed.
-
-Lemma cnt_nil : forall x, cnt x [] = 0.
-Proof. reflexivity. Qed.
-Ltac clia := rewrite ?cnt_nil in *; lia.
-
-Lemma inv_init : forall p cands n, inv cands (init p cands n).
+Lemma set_nth_twice : forall A j (x y : A) l, set_nth j y (set_nth j x l) = set_nth j y l.
 Proof.
-  intros p cands n. constructor; cbn.
-  - intros x. rewrite flushc_repeat. unfold poolc. cbn. destruct p; cbn; clia.
-  - rewrite ftoks_repeat. reflexivity.
-  - discriminate.
-  - exact I.
-  - left. intros f Hf. apply repeat_spec in Hf. exact Hf.
-Qed.
-
-Lemma inv_agent : forall cands s s', inv cands s -> agent_step s = Some s' -> inv cands s'.
-Proof.
-  intros cands s s' I H. unfold agent_step in H.
-  pose proof (c_tok _ _ I) as Htok. pose proof (c_cons _ _ I) as Hcons.
-  pose proof (c_rest _ _ I) as Hrest. unfold atok, inhand in *.
-  destruct (a_ph s) eqn:Hph.
-  - (* AEnter *)
-    destruct (a_rest s) as [|c r] eqn:Hr.
-    + injection H as <-. constructor; cbn; unfold atok, inhand, poolc in *; cbn; rewrite ?Hph in *.
-      * intros x. specialize (Hcons x). cbn in Hcons. clia.
-      * exact Htok.
-      * apply (c_nilp _ _ I).
-      * reflexivity.
-      * apply (c_fl _ _ I).
-    + destruct (pool_active s) eqn:Hact.
-      * injection H as <-. unfold pool_active in Hact.
-        destruct (pool s) as [l|] eqn:Hp; [|discriminate].
-        constructor; cbn; unfold atok, inhand, poolc, pool_active in *; cbn; rewrite ?Hph, ?Hp in *.
-        -- intros x. specialize (Hcons x). cbn [cnt] in *. rewrite cnt_app.
-           change (cnt x (c :: r)) with (cnt x ([c] ++ r)) in Hcons. rewrite cnt_app in Hcons. clia.
-        -- exact Htok.
-        -- intros Hn. exact Hact.
-        -- trivial.
-        -- destruct (c_fl _ _ I) as [Hl|Hn]; [left; exact Hl|congruence].
-      * injection H as <-. constructor; cbn; unfold atok, inhand, poolc, pool_active in *; cbn.
-        -- intros x. specialize (Hcons x).
-           change (cnt x (c :: r)) with (cnt x ([c] ++ r)) in Hcons. rewrite cnt_app in Hcons. clia.
-        -- exact Htok.
-        -- apply (c_nilp _ _ I).
-        -- trivial.
-        -- apply (c_fl _ _ I).
-  - (* ACandEmit *)
-    injection H as <-. constructor; cbn; unfold atok, inhand, poolc, pool_active in *; cbn.
-    + intros x. specialize (Hcons x). rewrite emitted_snoc_some, cnt_app. clia.
-    + rewrite nil_count_snoc_some. exact Htok.
-    + apply (c_nilp _ _ I).
-    + trivial.
-    + apply (c_fl _ _ I).
-  - (* ANilPool *)
-    destruct (pool_active s) eqn:Hact.
-    + injection H as <-. constructor; cbn; unfold atok, inhand, poolc in *; cbn.
-      * intros x. specialize (Hcons x). cbn in Hcons. clia.
-      * destruct (nilp s); cbn in *; clia.
-      * intros _. unfold pool_active in *. cbn. exact Hact.
-      * exact Hrest.
-      * apply (c_fl _ _ I).
-    + injection H as <-. constructor; cbn; unfold atok, inhand, poolc, pool_active in *; cbn.
-      * intros x. specialize (Hcons x). cbn in Hcons. clia.
-      * exact Htok.
-      * apply (c_nilp _ _ I).
-      * exact Hrest.
-      * apply (c_fl _ _ I).
-  - (* ANilEmit *)
-    injection H as <-. constructor; cbn; unfold atok, inhand, poolc, pool_active in *; cbn.
-    + intros x. specialize (Hcons x). rewrite emitted_snoc_none. cbn in Hcons. clia.
-    + rewrite nil_count_snoc_none. clia.
-    + apply (c_nilp _ _ I).
-    + exact Hrest.
-    + apply (c_fl _ _ I).
-  - discriminate.
-Qed.
-
-Lemma inv_flush : forall cands s j s', inv cands s -> flush_step s j = Some s' -> inv cands s'.
-Proof.
-  intros cands s j s' I H. unfold flush_step in H.
-  pose proof (c_tok _ _ I) as Htok. pose proof (c_cons _ _ I) as Hcons.
-  destruct (nth_error (fl s) j) as [f|] eqn:Hj; [|discriminate].
-  destruct f as [|cs b|].
-  - (* FStart *)
-    injection H as <-. constructor; cbn; unfold atok, inhand, poolc, pool_active in *; cbn.
-    + intros x. specialize (Hcons x).
-      pose proof (flushc_set_nth x j _ (fnext (match pool s with Some l => l | None => [] end) (nilp s)) _ Hj) as Hs.
-      rewrite fcontrib_fnext in Hs. cbn in Hs. clia.
-    + pose proof (ftoks_set_nth j _ (fnext (match pool s with Some l => l | None => [] end) (nilp s)) _ Hj) as Hs.
-      rewrite ftok_fnext in Hs. cbn in Hs. clia.
-    + discriminate.
-    + apply (c_rest _ _ I).
-    + right. reflexivity.
-  - assert (pool s = None) as Hpn.
-    { destruct (c_fl _ _ I) as [Hl|Hn]; [|exact Hn].
-      apply nth_error_In in Hj. specialize (Hl _ Hj). discriminate. }
-    destruct cs as [|c r].
-    + destruct b; injection H as <-; constructor; cbn; unfold atok, inhand, poolc, pool_active in *; cbn;
-        try (apply I); try (right; exact Hpn).
-      * intros x. specialize (Hcons x). rewrite emitted_snoc_none.
-        pose proof (flushc_set_nth x j _ FDone _ Hj) as Hs. cbn in Hs. clia.
-      * rewrite nil_count_snoc_none. pose proof (ftoks_set_nth j _ FDone _ Hj) as Hs. cbn in Hs. clia.
-      * intros x. specialize (Hcons x).
-        pose proof (flushc_set_nth x j _ FDone _ Hj) as Hs. cbn in Hs. clia.
-      * pose proof (ftoks_set_nth j _ FDone _ Hj) as Hs. cbn in Hs. clia.
-    + injection H as <-. constructor; cbn; unfold atok, inhand, poolc, pool_active in *; cbn;
-        try (apply I); try (right; exact Hpn).
-      * intros x. specialize (Hcons x). rewrite emitted_snoc_some, cnt_app.
-        pose proof (flushc_set_nth x j _ (fnext r b) _ Hj) as Hs. rewrite fcontrib_fnext in Hs.
-        change (cnt x (fcontrib (FEmit (c :: r) b))) with (cnt x ([c] ++ r)) in Hs.
-        rewrite cnt_app in Hs. clia.
-      * rewrite nil_count_snoc_some. pose proof (ftoks_set_nth j _ (fnext r b) _ Hj) as Hs.
-        rewrite ftok_fnext in Hs. cbn in Hs. destruct b; cbn in *; clia.
-  - discriminate.
-Qed.
-
-Lemma inv_run : forall cands sch s, inv cands s -> inv cands (run s sch).
-Proof.
-  intros cands sch. induction sch as [|t rest IH]; intros s I; [exact I|].
-  cbn. destruct (step s t) as [s'|] eqn:Hs; [|apply IH; exact I].
-  apply IH. destruct t; cbn in Hs; [eapply inv_agent|eapply inv_flush]; eauto.
-Qed.
-
-(* ---------- facts that do not need the invariant ---------- *)
-Lemma length_set_nth : forall A j (x : A) l, length (set_nth j x l) = length l.
-Proof.
-  intros A j x l. revert j. induction l as [|a t IH]; intros j; [destruct j; reflexivity|].
+  intros A j x y l. revert j. induction l as [|a t IH]; intros j; [destruct j; reflexivity|].
   destruct j; cbn; [reflexivity|]. rewrite IH. reflexivity.
 Qed.
 
-Lemma step_fl_length : forall s t s', step s t = Some s' -> length (fl s') = length (fl s).
+(* no flush rests at "reporting" with nothing left to report *)
+Definition ne (s : st) : Prop := forall na, ~ In (FEmit [] na) (fl s).
+
+Lemma femits_pos : forall l j cs na, nth_error l j = Some (FEmit cs na) -> 0 < femits l.
 Proof.
-  intros s t s' H. destruct t as [|j]; cbn in H.
-  - unfold agent_step in H.
-    destruct (a_ph s); try discriminate;
-      try (destruct (a_rest s)); try (destruct (pool_active s)); injection H as <-; reflexivity.
-  - unfold flush_step in H. destruct (nth_error (fl s) j) as [[|[|c r] [|]|]|]; try discriminate;
-      injection H as <-; cbn; apply length_set_nth.
+  induction l as [|a t IH]; intros j cs na H; [destruct j; discriminate|].
+  destruct j; cbn in *.
+  - apply Some_inj in H. subst. cbn. lia.
+  - specialize (IH j cs na H). lia.
 Qed.
 
-Lemma step_pool_none : forall s t s', step s t = Some s' -> pool s = None -> pool s' = None.
+(* the end of a flush, from a state whose flush j has nothing left to report *)
+Lemma inv_finish : forall all s j na,
+  inv all s -> nth_error (fl s) j = Some (FEmit [] na) -> pool s = None ->
+  inv all (flush_finish s j).
 Proof.
-  intros s t s' H Hp. destruct t as [|j]; cbn in H.
-  - unfold agent_step, pool_active in H. rewrite Hp in H.
-    destruct (a_ph s); try discriminate;
-      try (destruct (a_rest s)); injection H as <-; cbn; try rewrite Hp; reflexivity.
-  - unfold flush_step in H. destruct (nth_error (fl s) j) as [[|[|c r] [|]|]|]; try discriminate;
-      injection H as <-; cbn; auto.
+  intros all s j na I Hj Hp.
+  pose proof (c_cons _ _ I) as Hcons. pose proof (c_emit _ _ I) as Hem.
+  pose proof (c_nofx _ _ I) as Hnf. pose proof (c_nilp _ _ I) as Hnp.
+  pose proof (c_pool _ _ I) as Hpl.
+  pose proof (femits_pos _ _ _ _ Hj) as Hpos.
+  assert (forall f', fcontrib f' = [] -> femit f' = 0 -> (forall cs k, f' <> FEmit cs (Some k)) ->
+            (forall x, cnt x all
+               = cnt x (cands_of (out s)) + cnt x (inhand s) + cnt x (poolc s)
+                 + cnt x (flushc (set_nth j f' (fl s))) + cnt x (cands_of (pendingq s)))
+            /\ femits (set_nth j f' (fl s)) = pred (flushing s)
+            /\ (forall cs k, ~ In (FEmit cs (Some k)) (set_nth j f' (fl s)))) as Hgen.
+  { intros f' Hc He Hn. split; [|split].
+    - intros x. specialize (Hcons x). pose proof (flushc_set_nth x j _ f' _ Hj) as Hs.
+      rewrite Hc in Hs. cbn in Hs. rewrite cnt_nil in Hs. lia.
+    - pose proof (femits_set_nth j _ f' _ Hj) as Hs. rewrite He in Hs. cbn in Hs. lia.
+    - intros cs k Hin. apply in_set_nth in Hin. destruct Hin as [Hin|Hin]; [exact (Hn cs k (eq_sym Hin))|].
+      exact (Hnf cs k Hin). }
+  assert (pool_active s = false) as Hina by (unfold pool_active; rewrite Hp; reflexivity).
+  unfold flush_finish.
+  destruct (nilp s) as [k|] eqn:Hn.
+  - destruct (Nat.eqb (pred (flushing s)) 0) eqn:Hz.
+    + destruct (Hgen (FNil k) eq_refl eq_refl ltac:(discriminate)) as (G1 & G2 & G3).
+      constructor; fields; auto; try congruence; try (right; exact Hp).
+    + destruct (Hgen FDone eq_refl eq_refl ltac:(discriminate)) as (G1 & G2 & G3).
+      constructor; fields; auto; try congruence; try (right; exact Hp).
+      intros _. right. apply Nat.eqb_neq in Hz. lia.
+  - destruct (Hgen FDone eq_refl eq_refl ltac:(discriminate)) as (G1 & G2 & G3).
+    constructor; fields; auto; try congruence; try (right; exact Hp).
 Qed.
 
-Lemma run_fl_length : forall sch s, length (fl (run s sch)) = length (fl s).
+Lemma ne_finish : forall s j na,
+  nth_error (fl s) j = Some (FEmit [] na) ->
+  (forall i f, i <> j -> nth_error (fl s) i = Some f -> forall na', f <> FEmit [] na') ->
+  ne (flush_finish s j).
 Proof.
-  induction sch as [|t rest IH]; intros s; [reflexivity|].
-  cbn. destruct (step s t) as [s'|] eqn:Hs; [|apply IH].
-  rewrite IH. eapply step_fl_length. exact Hs.
+  intros s j na Hj Hoth na' Hin.
+  assert (forall f', (forall n, f' <> FEmit [] n) -> ~ In (FEmit [] na') (set_nth j f' (fl s))) as G.
+  { intros f' Hf Hi. apply In_nth_error in Hi. destruct Hi as [i Hi].
+    destruct (Nat.eq_dec i j) as [->|Hne].
+    - rewrite (nth_set_nth_same _ _ _ _ _ Hj) in Hi. apply Some_inj in Hi. exact (Hf na' Hi).
+    - assert (nth_error (set_nth j f' (fl s)) i = nth_error (fl s) i) as E.
+      { clear -Hne. revert i j Hne. induction (fl s) as [|a t IH]; intros i j Hne.
+        - destruct j; reflexivity.
+        - destruct j, i; cbn; try reflexivity; [congruence|]. apply IH. congruence. }
+      rewrite E in Hi. exact (Hoth i _ Hne Hi na' eq_refl). }
+  unfold flush_finish in Hin.
+  destruct (nilp s) as [k|]; [destruct (Nat.eqb (pred (flushing s)) 0)|]; cbn in Hin;
+    eapply G; try exact Hin; intros n; discriminate.
 Qed.
 
-Lemma run_pool_none : forall sch s, pool s = None -> pool (run s sch) = None.
+Lemma nth_set_nth_other : forall A i j (x : A) l,
+  i <> j -> nth_error (set_nth j x l) i = nth_error l i.
 Proof.
-  induction sch as [|t rest IH]; intros s Hp; [exact Hp|].
-  cbn. destruct (step s t) as [s'|] eqn:Hs; [|apply IH; exact Hp].
-  apply IH. eapply step_pool_none; eauto.
+  intros A i j x l. revert i j. induction l as [|a t IH]; intros i j H.
+  - destruct j; reflexivity.
+  - destruct j, i; cbn; try reflexivity; [congruence|]. apply IH. congruence.
 Qed.
 
-Lemma quiescent_flushed : forall p cands n sch,
-  (p = 0 \/ 0 < n) ->
-  let s := run (init p cands n) sch in
-  quiescent s = true -> pool s = None.
+Lemma flush_finish_set : forall s j f g p ps np fl0 o q a,
+  flush_finish (upd s g p ps np fl0 o q a (set_nth j f (fl s))) j
+  = flush_finish (upd s g p ps np fl0 o q a (fl s)) j.
 Proof.
-  intros p cands n sch Hfl s Hq.
-  destruct Hfl as [->|Hn].
-  - apply run_pool_none. reflexivity.
-  - assert (inv cands s) as I by (apply inv_run, inv_init).
-    destruct (c_fl _ _ I) as [Hall|Hnone]; [|exact Hnone]. exfalso.
-    unfold quiescent in Hq. apply andb_true_iff in Hq. destruct Hq as [_ Hq].
-    assert (length (fl s) = n) as Hlen.
-    { unfold s. rewrite run_fl_length. cbn. apply repeat_length. }
-    destruct (fl s) as [|f t] eqn:Hf; [cbn in Hlen; lia|].
-    cbn in Hq. apply andb_true_iff in Hq. destruct Hq as [Hd _].
-    rewrite (Hall f (or_introl eq_refl)) in Hd. discriminate.
+  intros. unfold flush_finish. cbn [nilp flushing fl upd gstate pool psize out a_queue a_ph].
+  destruct np; [destruct (Nat.eqb (pred fl0) 0)|]; unfold upd; cbn; rewrite set_nth_twice; reflexivity.
 Qed.
 
-Lemma flushc_done : forall l, forallb fdone l = true -> flushc l = [] /\ ftoks l = 0.
+(* the flush takes the pool *)
+Lemma inv_take : forall all s j,
+  inv all s -> nth_error (fl s) j = Some FStart ->
+  inv all (upd s (gstate s) None 0 (nilp s) (S (flushing s)) (out s) (a_queue s) (a_ph s)
+             (set_nth j (FEmit (poolc s) None) (fl s))).
 Proof.
-  unfold flushc. induction l as [|f t IH]; intros H; [split; reflexivity|].
-  cbn in H. apply andb_true_iff in H. destruct H as [Hf Ht]. destruct (IH Ht) as [E1 E2].
-  destruct f; try discriminate. cbn. rewrite E1, E2. split; reflexivity.
+  intros all s j I Hj.
+  pose proof (c_cons _ _ I) as Hcons. pose proof (c_emit _ _ I) as Hem.
+  pose proof (c_nofx _ _ I) as Hnf.
+  constructor; fields; auto.
+  - intros x. specialize (Hcons x).
+    pose proof (flushc_set_nth x j _ (FEmit (poolc s) None) _ Hj) as Hs. cbn in Hs.
+    rewrite cnt_nil in *. unfold inhand, poolc, pendingq in *. lia.
+  - pose proof (femits_set_nth j _ (FEmit (poolc s) None) _ Hj) as Hs. cbn in Hs.
+    unfold poolc in *. lia.
+  - intros cs k Hin. apply in_set_nth in Hin. destruct Hin as [Hin|Hin]; [discriminate|].
+    exact (Hnf cs k Hin).
+  - intros _. right. lia.
 Qed.
 
-(* ---------- statements ---------- *)
-
-(* at every moment no candidate has been reported more often than it was gathered *)
-Lemma candidates_at_most_once : forall p cands n sch x,
-  count_occ Nat.eq_dec (emitted (out (run (init p cands n) sch))) x
-  <= count_occ Nat.eq_dec cands x.
+(* the flush reports one candidate *)
+Lemma inv_emit : forall all s j c r na,
+  inv all s -> nth_error (fl s) j = Some (FEmit (c :: r) na) ->
+  inv all (upd s (gstate s) (pool s) (psize s) (nilp s) (flushing s)
+             (out s ++ [(fst c, Some (snd c))]) (a_queue s) (a_ph s)
+             (set_nth j (FEmit r na) (fl s))).
 Proof.
-  intros p cands n sch x.
-  assert (inv cands (run (init p cands n) sch)) as I by (apply inv_run, inv_init).
-  pose proof (c_cons _ _ I x) as H. unfold cnt in H. lia.
+  intros all s j c r na I Hj.
+  pose proof (c_cons _ _ I) as Hcons. pose proof (c_emit _ _ I) as Hem.
+  pose proof (c_nofx _ _ I) as Hnf. pose proof (c_nilp _ _ I) as Hnp.
+  pose proof (c_pool _ _ I) as Hpl. pose proof (c_fl _ _ I) as Hfl.
+  constructor; fields; auto.
+  - intros x. specialize (Hcons x).
+    pose proof (flushc_set_nth x j _ (FEmit r na) _ Hj) as Hs. cbn [fcontrib] in Hs.
+    rewrite cnt_cons in Hs. destruct c as [k c]. cbn [fst snd].
+    unfold inhand, poolc, pendingq in *. clia.
+  - pose proof (femits_set_nth j _ (FEmit r na) _ Hj) as Hs. cbn in Hs. lia.
+  - intros cs k Hin. apply in_set_nth in Hin. destruct Hin as [Hin|Hin]; [|exact (Hnf cs k Hin)].
+    injection Hin as _ Hna. subst na. exact (Hnf _ _ (nth_error_In _ _ Hj)).
+  - right. destruct Hfl as [Hl|Hn]; [|exact Hn].
+    specialize (Hl _ (nth_error_In _ _ Hj)). discriminate.
 Qed.
 
-(* when everything has finished and the pool was flushed (or there is none),
-   every candidate has been reported exactly as often as it was gathered *)
-Lemma candidates_exactly_once : forall p cands n sch,
-  (p = 0 \/ 0 < n) ->
-  let s := run (init p cands n) sch in
-  quiescent s = true ->
-  forall x, count_occ Nat.eq_dec (emitted (out s)) x = count_occ Nat.eq_dec cands x.
+Lemma inv_flush : forall all s j s',
+  inv all s -> ne s -> flush_step true s j = Some s' -> inv all s' /\ ne s'.
 Proof.
-  intros p cands n sch Hfl s Hq x.
-  assert (inv cands s) as I by (apply inv_run, inv_init).
-  pose proof (quiescent_flushed p cands n sch Hfl Hq) as Hp. fold s in Hp.
-  pose proof (c_cons _ _ I x) as H. pose proof (c_rest _ _ I) as Hr.
-  unfold quiescent, adone in Hq. apply andb_true_iff in Hq. destruct Hq as [Ha Hf].
-  destruct (flushc_done _ Hf) as [Hfc _].
-  unfold inhand, poolc in H. rewrite Hp, Hfc in H.
-  destruct (a_ph s); try discriminate. rewrite Hr in H. unfold cnt in *. cbn in H. lia.
+  intros all s j s' I N H. unfold flush_step in H.
+  destruct (nth_error (fl s) j) as [f|] eqn:Hj; [|discriminate].
+  assert (forall i f0, i <> j -> nth_error (fl s) i = Some f0 -> forall na', f0 <> FEmit [] na') as Hoth.
+  { intros i f0 _ Hi na' E. subst f0. exact (N na' (nth_error_In _ _ Hi)). }
+  destruct f as [|cs na|k|].
+  - (* FStart *)
+    pose proof (inv_take _ _ _ I Hj) as I1. fold (poolc s) in H.
+    destruct (poolc s) as [|c r] eqn:Hc.
+    + apply Some_inj in H. subst s'. split.
+      * eapply inv_finish; [exact I1| |reflexivity].
+        cbn [fl upd]. eapply nth_set_nth_same. exact Hj.
+      * eapply ne_finish.
+        -- cbn [fl upd]. eapply nth_set_nth_same. exact Hj.
+        -- cbn [fl upd]. intros i f0 Hne Hi. rewrite nth_set_nth_other in Hi by exact Hne.
+           eapply Hoth; eauto.
+    + apply Some_inj in H. subst s'. split; [exact I1|].
+      intros na' Hin. cbn [fl upd] in Hin. apply in_set_nth in Hin.
+      destruct Hin as [Hin|Hin]; [discriminate|exact (N na' Hin)].
+  - destruct cs as [|c r].
+    + exfalso. exact (N na (nth_error_In _ _ Hj)).
+    + pose proof (inv_emit _ _ _ _ _ _ I Hj) as I1.
+      assert (pool s = None) as Hp.
+      { destruct (c_fl _ _ I) as [Hl|Hn]; [|exact Hn].
+        specialize (Hl _ (nth_error_In _ _ Hj)). discriminate. }
+      destruct r as [|c2 r2].
+      * apply Some_inj in H. subst s'.
+        rewrite <- (flush_finish_set _ j (FEmit [] na)).
+        cbn [gstate pool psize nilp flushing out a_queue a_ph fl upd]. split.
+        -- eapply inv_finish; [exact I1| |exact Hp].
+           cbn [fl upd]. eapply nth_set_nth_same. exact Hj.
+        -- eapply ne_finish.
+           ++ cbn [fl upd]. eapply nth_set_nth_same. exact Hj.
+           ++ cbn [fl upd]. intros i f0 Hne Hi. rewrite nth_set_nth_other in Hi by exact Hne.
+              eapply Hoth; eauto.
+      * apply Some_inj in H. subst s'. split; [exact I1|].
+        intros na' Hin. cbn [fl upd] in Hin. apply in_set_nth in Hin.
+        destruct Hin as [Hin|Hin]; [discriminate|exact (N na' Hin)].
+  - (* FNil *)
+    apply Some_inj in H. subst s'.
+    pose proof (c_cons _ _ I) as Hcons. pose proof (c_emit _ _ I) as Hem.
+    pose proof (c_nofx _ _ I) as Hnf. split.
+    + constructor; fields; try (apply I).
+      * intros x. specialize (Hcons x).
+        pose proof (flushc_set_nth x j _ FDone _ Hj) as Hs. cbn in Hs.
+        unfold inhand, poolc, pendingq in *. clia.
+      * pose proof (femits_set_nth j _ FDone _ Hj) as Hs. cbn in Hs. lia.
+      * intros cs k0 Hin. apply in_set_nth in Hin. destruct Hin as [Hin|Hin]; [discriminate|].
+        exact (Hnf cs k0 Hin).
+      * destruct (c_fl _ _ I) as [Hl|Hn]; [|right; exact Hn].
+        specialize (Hl _ (nth_error_In _ _ Hj)). discriminate.
+    + intros na' Hin. cbn [fl upd] in Hin. apply in_set_nth in Hin.
+      destruct Hin as [Hin|Hin]; [discriminate|exact (N na' Hin)].
+  - discriminate.
 Qed.
 
-Lemma end_at_most_once : forall p cands n sch,
-  nil_count (out (run (init p cands n) sch)) <= 1.
+Lemma pendingq_restart : forall s s', restart_step s = Some s' -> pendingq s' = pendingq s.
 Proof.
-  intros p cands n sch.
-  assert (inv cands (run (init p cands n) sch)) as I by (apply inv_run, inv_init).
-  pose proof (c_tok _ _ I). lia.
+  intros s s' H. unfold restart_step in H. destruct (cycles s) as [|c rest] eqn:Hc; [discriminate|].
+  apply Some_inj in H. subst s'. unfold pendingq. cbn. rewrite Hc. cbn. rewrite app_assoc. reflexivity.
 Qed.
 
-Lemma end_exactly_once : forall p cands n sch,
-  (p = 0 \/ 0 < n) ->
-  let s := run (init p cands n) sch in
-  quiescent s = true -> nil_count (out s) = 1.
+Lemma inv_restart : forall all s s', inv all s -> ne s -> restart_step s = Some s' -> inv all s' /\ ne s'.
 Proof.
-  intros p cands n sch Hfl s Hq.
-  assert (inv cands s) as I by (apply inv_run, inv_init).
-  pose proof (quiescent_flushed p cands n sch Hfl Hq) as Hp. fold s in Hp.
-  pose proof (c_tok _ _ I) as H. pose proof (c_nilp _ _ I) as Hn.
-  unfold quiescent, adone in Hq. apply andb_true_iff in Hq. destruct Hq as [Ha Hf].
-  destruct (flushc_done _ Hf) as [_ Hft]. rewrite Hft in H.
-  unfold atok in H. destruct (a_ph s); try discriminate.
-  destruct (nilp s); [|cbn in H; lia].
-  specialize (Hn eq_refl). unfold pool_active in Hn. rewrite Hp in Hn. discriminate.
+  intros all s s' I N H. pose proof (pendingq_restart _ _ H) as Hq.
+  unfold restart_step in H. destruct (cycles s) as [|c rest] eqn:Hc; [discriminate|].
+  apply Some_inj in H. subst s'. split; [|exact N].
+  constructor; try (apply I).
+  intros x. rewrite Hq. apply (c_cons _ _ I).
 Qed.
 
-(* the remaining race: the flush has taken the pooled candidate, the nil
-   callback reports the end, then the flush reports the candidate *)
-Lemma order_refuted :
-  let s := run (init 1 [1] 1) [0; 1; 0; 0; 0; 1] in
-  quiescent s = true /\ out s = [None; Some 1] /\ nil_last (out s) = false.
-Proof. vm_compute. repeat split; reflexivity. Qed.
+Definition inv2 (all : list tcand) (s : st) : Prop := inv all s /\ ne s.
 
-(* ---------- without a pool the full property holds on every schedule ---------- *)
-Definition pending_out (s : st) : list (option cand) :=
-  match a_ph s with
-  | AEnter => map Some (a_rest s) ++ [None]
-  | ACandEmit c => Some c :: map Some (a_rest s) ++ [None]
-  | ANilPool | ANilEmit => [None]
-  | ADone => []
-  end.
-
-Record invp (cands : list cand) (s : st) : Prop := {
-  p_pool : pool s = None;
-  p_nilp : nilp s = false;
-  p_fl : forall f, In f (fl s) -> f = FStart \/ f = FDone;
-  p_out : out s ++ pending_out s = map Some cands ++ [None];
-  p_rest : match a_ph s with ANilPool | ANilEmit | ADone => a_rest s = [] | _ => True end
-}.
-
-Lemma invp_init : forall cands n, invp cands (init 0 cands n).
+Lemma inv2_step : forall all s t s', inv2 all s -> step true s t = Some s' -> inv2 all s'.
 Proof.
-  intros cands n. constructor; cbn; auto.
-  intros f Hf. apply repeat_spec in Hf. left. exact Hf.
+  intros all s t s' [I N] H. destruct t; cbn in H.
+  - split; [eapply inv_agent; eauto|].
+    unfold agent_step in H.
+    destruct (a_ph s); [destruct (a_queue s) as [|[k [c|]] r]; [discriminate|destruct (pool_active s)|]| |
+                         destruct (pool_active s || (true && Nat.ltb 0 (flushing s)))|];
+      apply Some_inj in H; subst s'; exact N.
+  - eapply inv_flush; eauto.
+  - eapply inv_restart; eauto.
 Qed.
 
-Lemma invp_step : forall cands s t s', invp cands s -> step s t = Some s' -> invp cands s'.
+Lemma inv2_init : forall p first more n, inv2 (all_cands first more) (init p first more n).
 Proof.
-  intros cands s t s' P H.
-  pose proof (p_pool _ _ P) as Hp. pose proof (p_out _ _ P) as Ho. pose proof (p_rest _ _ P) as Hr.
-  unfold pending_out in Ho.
-  destruct t as [|j]; cbn in H.
-  - unfold agent_step, pool_active in H. rewrite Hp in H.
-    destruct (a_ph s) eqn:Hph.
-    + destruct (a_rest s) as [|c r] eqn:Hrs; injection H as <-;
-        constructor; cbn; unfold pending_out; cbn; try (apply P); auto.
-    + injection H as <-. constructor; cbn; unfold pending_out; cbn; try (apply P); auto.
-      rewrite <- app_assoc. exact Ho.
-    + injection H as <-. constructor; cbn; unfold pending_out; cbn; try (apply P); auto.
-    + injection H as <-. constructor; cbn; unfold pending_out; cbn; try (apply P); auto.
-      rewrite app_nil_r. exact Ho.
-    + discriminate.
-  - unfold flush_step in H. destruct (nth_error (fl s) j) as [f|] eqn:Hj; [|discriminate].
-    pose proof (p_fl _ _ P f (nth_error_In _ _ Hj)) as Hf.
-    destruct Hf as [->| ->]; [|discriminate].
-    injection H as <-. rewrite Hp, (p_nilp _ _ P). cbn.
-    constructor; cbn; unfold pending_out; cbn; auto; try (apply P).
-    intros f Hin. apply in_set_nth in Hin. destruct Hin as [->|Hin]; [right; reflexivity|].
-    apply (p_fl _ _ P f Hin).
+  intros. split; [apply inv_init|]. intros na H. cbn in H. apply repeat_spec in H. discriminate.
 Qed.
 
-Lemma invp_run : forall cands sch s, invp cands s -> invp cands (run s sch).
+Lemma inv2_run : forall p first more n sch,
+  inv2 (all_cands first more) (run true (init p first more n) sch).
 Proof.
-  intros cands sch. induction sch as [|t rest IH]; intros s P; [exact P|].
-  cbn. destruct (step s t) as [s'|] eqn:Hs; [|apply IH; exact P].
-  apply IH. eapply invp_step; eauto.
-Qed.
-
-Lemma nopool_full : forall cands n sch,
-  let s := run (init 0 cands n) sch in
-  (exists rest, out s ++ rest = map Some cands ++ [None]) /\
-  (quiescent s = true -> out s = map Some cands ++ [None]).
-Proof.
-  intros cands n sch s.
-  assert (invp cands s) as P by (apply invp_run, invp_init).
-  split.
-  - exists (pending_out s). apply (p_out _ _ P).
-  - intros Hq. unfold quiescent, adone in Hq. apply andb_true_iff in Hq. destruct Hq as [Ha _].
-    pose proof (p_out _ _ P) as Ho. unfold pending_out in Ho.
-    destruct (a_ph s); try discriminate. rewrite app_nil_r in Ho. exact Ho.
-Qed.
-
-(* ---------- statements in the form used by Properties/C24.v ---------- *)
-Lemma partial_all_schedules : forall poolsize cands nflush sch,
-  (poolsize = 0 \/ 0 < nflush) ->
-  let s := run (init poolsize cands nflush) sch in
-  quiescent s = true ->
-  (forall x, count_occ Nat.eq_dec (emitted (out s)) x = count_occ Nat.eq_dec cands x) /\
-  nil_count (out s) = 1.
-Proof.
-  intros p c n sch H s Hq. split.
-  - apply candidates_exactly_once; assumption.
-  - apply end_exactly_once; assumption.
-Qed.
-
-Lemma full_refuted :
-  exists poolsize cands nflush sch,
-    let s := run (init poolsize cands nflush) sch in
-    quiescent s = true /\ nil_last (out s) = false.
-Proof.
-  exists 1, [1], 1, [0; 1; 0; 0; 0; 1].
-  exact (conj (proj1 order_refuted) (proj2 (proj2 order_refuted))).
+  intros. apply (run_inv true (inv2 (all_cands first more))); [|apply inv2_init].
+  intros s t s' I H. eapply inv2_step; eauto.
 Qed.
